@@ -29,7 +29,7 @@
      store_immutable s           every expression that can reach the array store s yields a read-only array *)
 From Coq Require Import String.
 From Coq Require Import QArith ZArith List Bool Arith Lia.
-From Ropt Require Import Base.Num Base.ListX Model.Config Gen.Gen_C18 Proofs.Config Proofs.ConfigThm.
+From Ropt Require Import Base.Num Base.ListX Model.Config Gen.Gen_C18 Proofs.Config Proofs.ConfigThm Proofs.ConfigCtx.
 Import ListNotations.
 Open Scope Q_scope.
 
@@ -169,6 +169,94 @@ Proof. exact rejects_bad_gradient_fields. Qed.
    and finite bounds wherever a perturbation is RELATIVE (Record consistent, Proofs/ConfigThm.v) is accepted *)
 Theorem C18_consistent_accepted : forall E raw, consistent E raw -> exists c, validate E None None raw = Ok c.
 Proof. exact consistent_accepted. Qed.
+
+(* ---- acceptance and conversion WITH a validation context (lemmas in Proofs/ConfigCtx.v) ------------------------------ *)
+(* the key fact: a positive affine map x |-> (x - o) / s (a positive scaling for the non-linear constraint bounds) neither
+   creates nor removes a crossing of bounds -- one pair of extended-real bounds, the variable bounds under a VariableScaler,
+   the non-linear constraint bounds under their scaler *)
+Theorem C18_bounds_consistency_affine :
+  (forall a b o s, 0 < s -> ele (ediv (esub_r a o) s) (ediv (esub_r b o) s) = ele a b) /\
+  (forall n sc lo up, scaler_ok n sc = true -> length lo = n -> length up = n ->
+     (crossed (to_opt_e sc lo) (to_opt_e sc up) <-> crossed lo up)) /\
+  (forall k nls lo up, nl_ok k nls = true -> length lo = k -> length up = k ->
+     (crossed (nl_e nls lo) (nl_e nls up) <-> crossed lo up)).
+Proof. split; [exact ele_affine | split; [exact crossed_to_opt_e | exact crossed_nl_e]]. Qed.
+
+(* C18_consistent_accepted with a context: a dictionary that is consistent IN THE USER'S UNITS (Record consistent: the same
+   record as above, nothing about the context in it) is accepted under every supported context (Record ctx_supported: one
+   positive scale / one offset per variable, either may be absent; one positive scale per non-linear constraint; and, only
+   when a variable scaler is present, no linear-constraint row identically zero -- ropt divides such a row by its equation
+   scale 0, which the model reports as Unsupported).  ctx = None, nls = None is C18_consistent_accepted *)
+Theorem C18_consistent_accepted_in_context : forall E raw ctx nls,
+  consistent E raw -> ctx_supported raw ctx nls -> exists c, validate E ctx nls raw = Ok c.
+Proof. exact consistent_accepted_ctx. Qed.
+Theorem C18_no_context_is_supported : forall raw, ctx_supported raw None None.
+Proof. exact ctx_supported_none. Qed.
+
+(* C18_perturbations_converted with a variable scaler: entry by entry (lo, up: the user's bounds as broadcast, x: the user's
+   magnitude, s_i = scale_at sc i: the scale of variable i, 1 when the scaler has offsets only) the stored magnitude is
+   (upper - lower) * x / s_i for RELATIVE and x / s_i for ABSOLUTE, both stored with type ABSOLUTE: the magnitude in the
+   user's units divided by the scale; the offsets do not enter *)
+Theorem C18_perturbations_converted_in_context : forall E sc nls raw c lo up mags ty i t x,
+  let V := length (v_initial (c_vars raw)) in
+  enums_wf E -> validate E (Some sc) nls raw = Ok c ->
+  broadcast1 V (v_lower (c_vars raw)) = Ok lo -> broadcast1 V (v_upper (c_vars raw)) = Ok up ->
+  bcast_to V (g_mags (c_grad raw)) = Ok mags -> bcast_to V (g_ptypes (c_grad raw)) = Ok ty ->
+  nth_error ty i = Some t -> nth_error mags i = Some x ->
+  0 < scale_at sc i /\
+  exists q, nth_error (g_mags (c_grad c)) i = Some q /\
+    if Z.eqb t (pt_rel E)
+    then exists a b, nth_error lo i = Some (Fin a) /\ nth_error up i = Some (Fin b) /\
+                     q == (b - a) * x / scale_at sc i /\ nth_error (g_ptypes (c_grad c)) i = Some (pt_abs E)
+    else if Z.eqb t (pt_abs E)
+    then q == x / scale_at sc i /\ nth_error (g_ptypes (c_grad c)) i = Some (pt_abs E)
+    else q = x /\ nth_error (g_ptypes (c_grad c)) i = Some t.
+Proof. exact validate_perturbations_ctx. Qed.
+
+(* non-vacuity: a dictionary with scalar and full-length arrays, a one-sided variable bound, a RELATIVE perturbation on the
+   variable with scale 2 and offset 1, a linear and two non-linear constraints is consistent, the context (scales 1, 2, 4,
+   offsets 0, 1, 0, non-linear scales 2, 4) is supported, and the accepted configuration stores (8 - 0) * 1/4 / 2 = 1 for the
+   RELATIVE entry and 1/4 / 1, 1/4 / 4 for the ABSOLUTE ones, all with type ABSOLUTE *)
+Example C18_example_context :
+  let raw := {| c_vars := {| v_initial := [1; 2; 3]; v_lower := [Fin 0]; v_upper := [Fin 4; Fin 8; PInf];
+                             v_types := Some [1%Z]; v_mask := Some [true; false; true] |};
+                c_obj_w := [1; 3]; c_real_w := [2; 0; 2]; c_rmin := Some 7%nat;
+                c_grad := {| g_P := 5; g_pmin := None; g_mags := [1 # 4]; g_ptypes := [1%Z; 2%Z; 1%Z]; g_btypes := [3%Z] |};
+                c_lin := Some {| l_coeffs := [[1; 0; 2]]; l_lower := [NInf]; l_upper := [Fin 6] |};
+                c_nonlin := Some {| n_lower := [Fin 0]; n_upper := [Fin 1; PInf] |} |} in
+  let sc := {| s_scales := Some [1; 2; 4]; s_offsets := Some [0; 1; 0] |} in
+  let nls := Some [2; 4] in
+  consistent gen_enums raw /\ ctx_supported raw (Some sc) nls /\ scale_at sc 1 = 2 /\
+  exists c, validate gen_enums (Some sc) nls raw = Ok c /\
+    qlist_eqb (g_mags (c_grad c)) [(1 # 4) / 1; (8 - 0) * (1 # 4) / 2; (1 # 4) / 4] = true /\
+    g_ptypes (c_grad c) = [1%Z; 1%Z; 1%Z] /\
+    elist_eqb (v_lower (c_vars c)) [Fin 0; Fin (-1 # 2); Fin 0] = true.
+Proof.
+  cbv zeta. split; [|split; [|split; [reflexivity|]]].
+  - constructor; cbn -[crossed].
+    + right; left; reflexivity.
+    + right; right; reflexivity.
+    + intros H. apply any_gt_spec in H. vm_compute in H. discriminate.
+    + split; [reflexivity | right; left; reflexivity].
+    + right; right; reflexivity.
+    + vm_compute. discriminate.
+    + vm_compute. discriminate.
+    + lia.
+    + discriminate.
+    + split; [reflexivity | right; reflexivity].
+    + split; [reflexivity | left; reflexivity].
+    + left; reflexivity.
+    + intros [|[|[|i]]] H; vm_compute in H; try discriminate; [|destruct i; discriminate].
+      exists 0, 8. split; reflexivity.
+    + split; [repeat constructor|]. split; [right; left; reflexivity|]. split; [right; left; reflexivity|].
+      intros H. apply any_gt_spec in H. vm_compute in H. discriminate.
+    + split; [left; reflexivity|]. intros H. apply any_gt_spec in H. vm_compute in H. discriminate.
+  - constructor; cbn.
+    + reflexivity.
+    + reflexivity.
+    + repeat constructor. exists 1. split; [left; reflexivity | intros H; vm_compute in H; discriminate].
+  - eexists. split; [vm_compute; reflexivity|]. repeat split; vm_compute; reflexivity.
+Qed.
 
 (* ---- stable under re-validation ------------------------------------------------------------------------------------ *)
 (* the enumeration values extracted from the current source satisfy what the theorems below need:
@@ -436,6 +524,10 @@ Print Assumptions C18_rejects_bad_nonlinear_shapes.
 Print Assumptions C18_rejects_relative_infinite.
 Print Assumptions C18_rejects_bad_gradient_fields.
 Print Assumptions C18_consistent_accepted.
+Print Assumptions C18_bounds_consistency_affine.
+Print Assumptions C18_consistent_accepted_in_context.
+Print Assumptions C18_no_context_is_supported.
+Print Assumptions C18_perturbations_converted_in_context.
 Print Assumptions C18_generated_enums_wf.
 Print Assumptions C18_validated_canonical.
 Print Assumptions C18_canonical_fixed_point.
